@@ -70,7 +70,8 @@ F_Cover == {
 F_Loose == {DefaultForm, [DefaultForm EXCEPT !.num = "explicit0", !.keys = "reversed"],
             [DefaultForm EXCEPT !.num = "explicit0f", !.cont = "set", !.names = "alias"]}
 ASSUME \A f \in F_Cover \cup F_Loose : IsForm(f)
-Sh_Forms == {<<1, 2, 2>>, <<2, 1, 2>>, <<2, 2, 2>>}
+Sh_Forms == {<<1, 2, 2>>, <<2, 1, 2>>}
+Sh_FormsT == {<<2, 2, 2>>}
 D_Both == {"none", "some"}
 M_TF == {"True", "False"}
 M_All == {"True", "False", "None"}
